@@ -85,7 +85,7 @@ reg("C15", "proof", ["contracts.stress:Stress", "contracts.density:ReducedDM", "
     extra_assumptions=["density routines replaced by their contracts (proved under C06, re-discharged here)",
                        "alpha, beta: generic symbolic path covers every real value outside the special-cased constants, which are separate shapes"])
 
-reg("C14", "proof", ["contracts.esp:ESP",
+reg("C14", "proof", ["contracts.esp:ESP", "contracts.esp:ESPInline",
     # the callee chain that carries the electronic part (contract of point_charge_integral = C03), re-discharged here
     "contracts.coulomb:OneElecKernel", "contracts.coulomb:PointChargeBlock", "contracts.coulomb:PointChargeInline", "contracts.coulomb:BoysFunction",
     "contracts.dispatch:Dispatch", "contracts.assembly:TwoSymm"],
